@@ -222,43 +222,11 @@ def run(ck, F):
     import keyrule
     SK = Sym(F, opaque=keyrule.key_opaque(F), max_depth=48)
 
-    def deep(t, st, d=0):
-        """value of a term with the abstract value objects it designates expanded (an Optional is what it holds)"""
-        if not isinstance(t, tuple):
-            return t
-        if t and t[0] == 'obj' and len(t) == 2 and t[1] in st.heap and d < 6:
-            o = st.heap[t[1]]
-            return ('val', o.cls, tuple((n, deep(v, st, d + 1)) for n, v in sorted(o.fields.items())))
-        return tuple(deep(x, st, d) for x in t)
-
-    def rewrite(t, eqs):
-        for a, b in eqs:
-            if t == b:
-                return a
-        if isinstance(t, tuple):
-            return tuple(rewrite(x, eqs) for x in t)
-        return t
+    import history
+    deep, rewrite = history.deep, history.rewrite
 
     def found_equalities(st2, base_eff):
-        """what `the table found an equal element` means on this path: the component comparisons of the comparator Sema
-        selected, evaluated on (found element, key), are all zero; for identity comparisons that is a = b"""
-        eqs = []
-        for c, val in st2.conds:
-            if not (val and isinstance(c, tuple) and c and c[0] == 'found' and c[3] is not None):
-                continue
-            _f, recv, key, el = c
-            for e in st2.effects[base_eff:]:
-                if not (e[0] in ('tree_insert', 'tree_find', 'chain_insert', 'chain_find') and e[1] == recv and e[2] == key):
-                    continue
-                comp, ifid, snap = e[3], e[5], e[6]
-                try:
-                    outs = SK.run(keyrule.comparator_in(F, ifid), this=comp, args=[el, key], state=snap.fork())
-                except Unsupported:
-                    continue
-                for kind, a, b, _x in keyrule.LexShape().analyse(outs, len(snap.conds)):
-                    if kind == 'scalar':
-                        eqs.append((deep(a, outs[0][0]), deep(b, outs[0][0])))
-        return eqs
+        return history.found_equalities(F, SK, st2, base_eff)
 
     restored = []
     for f in sorted(wire.all_factories(F), key=lambda f: f['id']):
